@@ -23,11 +23,23 @@ BR_INLINE = {"none": "%s", "span": "<span>%s</span>", "i": "<i>%s</i>", "b-span"
 BR_PATTERN = ["<br/>x", "<br/><br/>x", "x<br/>", "x<br/><br/>", "<br/><br/><br/>", "a<br/><br/>b", "<br/>x<br/><br/>", "<br/><br/><br/>x<br/>y"]
 BR_AROUND = {"alone": "%s", "between": "intro\n\n%s\noutro\n"}
 
+# deep nesting (C01's nest/pump families reach these depths) inside the shapes whose repair copies or moves whole subtrees
+DEEP_SHAPES = {"plain": "%s\n", "indent-table": ":{|\n|a||%s\n|}\n", "pre-list": " a <ul><li>%s</li></ul>\n", "cell": "{|\n| %s\n|}\n",
+               "dl-gallery": ";t\n:<gallery>\nFile:A.png|%s\n</gallery>\n", "ref": "a<ref>%s</ref>\n",
+               "center-table": "<center>\n{|\n| %s\n|}\n</center>\n", "image-caption": "[[File:A.png|thumb|%s]]\n"}
+DEEP_WRAP = {"div": ("<div>", "</div>"), "span": ("<span>", "</span>"), "bi": ("<b><i>", "</i></b>"), "ul": ("<ul><li>", "</li></ul>"),
+             "small": ("<small>", "</small>"), "table": ("<table><tr><td>", "</td></tr></table>")}
+DEEP_DEPTHS = [8, 60, 150, 220]
+
 
 def tree_hash(root):
     out = []
-
-    def rec(n):
+    stack = [root]
+    while stack:
+        n = stack.pop()
+        if n is None:
+            out.append(")")
+            continue
         out.append(type(n).__name__)
         cap = getattr(n, "caption", None)
         if isinstance(cap, str):
@@ -43,36 +55,69 @@ def tree_hash(root):
             if isinstance(v, (str, int, float, bool, dict, type(None))):
                 out.append("%s=%r" % (k, v))
         out.append("(")
-        for c in n.children:
-            rec(c)
-        out.append(")")
-
-    rec(root)
+        stack.append(None)
+        stack.extend(reversed(n.children))
     return stable_hash("\x00".join(out))
 
 
+def tree_depth(root):
+    depth, level = 0, [root]
+    while level and depth < 5000:
+        depth += 1
+        level = [c for n in level for c in n.children]
+    return depth
+
+
 def validate(root, final=False):
-    """own validator (not advtree's): returns list of (sig, msg)"""
+    """own validator (not advtree's), iterative so that the depth of the tree is no limit: returns list of (sig, msg)"""
     problems = []
     seen = set()
     onpath = set()
-
-    def rec(node, parent, depth):
+    # explicit stack of (node, parent, state): state 0 = enter, 1 = leave
+    stack = [(root, None, 0)]
+    while stack:
+        node, parent, state = stack.pop()
         i = id(node)
+        if state == 1:
+            onpath.discard(i)
+            if final:
+                ch = node.children
+                nm = type(node).__name__
+                kids = [type(c).__name__ for c in ch]
+                if nm == "Table":
+                    bad = [k for k in kids if k not in ("Row", "Caption")]
+                    if bad:
+                        problems.append(("contract:Table>" + bad[0], "Table contains %s" % bad[0]))
+                elif nm == "Row":
+                    bad = [k for k in kids if k != "Cell"]
+                    if bad:
+                        problems.append(("contract:Row>" + bad[0], "Row contains %s" % bad[0]))
+                elif nm == "ItemList":
+                    bad = [k for k in kids if k != "Item"]
+                    if bad:
+                        problems.append(("contract:ItemList>" + bad[0], "ItemList contains %s" % bad[0]))
+                pn = type(parent).__name__ if parent is not None else None
+                if nm == "Cell" and pn != "Row":
+                    problems.append(("contract:Cell<" + str(pn), "Cell directly under %s" % pn))
+                if nm == "Row" and pn != "Table":
+                    problems.append(("contract:Row<" + str(pn), "Row directly under %s" % pn))
+                if nm == "Item" and pn != "ItemList":
+                    problems.append(("contract:Item<" + str(pn), "Item directly under %s" % pn))
+            continue
         if i in onpath:
-            problems.append(("cycle", "%r is its own ancestor" % (node,)))
-            return
+            problems.append(("cycle", "%s is its own ancestor" % type(node).__name__))
+            continue
         if i in seen:
             problems.append(("node-shared", "%s occurs twice in the tree (second time under %s)" % (type(node).__name__, type(parent).__name__)))
-            return
+            continue
         seen.add(i)
-        if depth > 600:
-            problems.append(("too-deep", "depth > 600"))
-            return
+        if len(seen) > 2000000:
+            problems.append(("too-big", "more than 2e6 nodes"))
+            break
         ch = getattr(node, "children", None)
         if not isinstance(ch, list):
             problems.append(("children-type", "%s.children is %s" % (type(node).__name__, type(ch).__name__)))
-            return
+            continue
         p = getattr(node, "parent", None)
         if parent is None:
             if p is not None:
@@ -83,36 +128,12 @@ def validate(root, final=False):
         if type(node).__name__ == "Text" and ch:
             problems.append(("text-children", "Text node has %d children" % len(ch)))
         onpath.add(i)
-        for c in ch:
+        stack.append((node, parent, 1))
+        for c in reversed(ch):
             if not hasattr(c, "children"):
                 problems.append(("children-type", "%s has a %s child" % (type(node).__name__, type(c).__name__)))
                 continue
-            rec(c, node, depth + 1)
-        onpath.discard(i)
-        if final:
-            nm = type(node).__name__
-            kids = [type(c).__name__ for c in ch]
-            if nm == "Table":
-                bad = [k for k in kids if k not in ("Row", "Caption")]
-                if bad:
-                    problems.append(("contract:Table>" + bad[0], "Table contains %s" % bad[0]))
-            elif nm == "Row":
-                bad = [k for k in kids if k != "Cell"]
-                if bad:
-                    problems.append(("contract:Row>" + bad[0], "Row contains %s" % bad[0]))
-            elif nm == "ItemList":
-                bad = [k for k in kids if k != "Item"]
-                if bad:
-                    problems.append(("contract:ItemList>" + bad[0], "ItemList contains %s" % bad[0]))
-            pn = type(parent).__name__ if parent is not None else None
-            if nm == "Cell" and pn != "Row":
-                problems.append(("contract:Cell<" + str(pn), "Cell directly under %s" % pn))
-            if nm == "Row" and pn != "Table":
-                problems.append(("contract:Row<" + str(pn), "Row directly under %s" % pn))
-            if nm == "Item" and pn != "ItemList":
-                problems.append(("contract:Item<" + str(pn), "Item directly under %s" % pn))
-
-    rec(root, None, 0)
+            stack.append((c, node, 0))
     return problems
 
 
@@ -146,6 +167,7 @@ class CleanExplore(InputProp):
         except ImportError:
             pass
         fams.append(Product(sorted(BR_AROUND), sorted(BR_OUTER), sorted(BR_INLINE), BR_PATTERN, name="brwrap"))
+        fams.append(Product(sorted(DEEP_SHAPES), sorted(DEEP_WRAP), DEEP_DEPTHS, name="deep"))
         fams.append(Seqs(clean_names, 2, minlen=2, name="clean2"))
         fams.append(Product(clean_names, [c[0] for c in W.CTX], name="clean-ctx"))
         if tier != "quick":
@@ -165,6 +187,10 @@ class CleanExplore(InputProp):
             return self.ctx[c[0]] % c[1]
         if fam == "clean-ctx":
             return self.ctx[c[1]] % self.clean[c[0]]
+        if fam == "deep":
+            o, cl = DEEP_WRAP[c[1]]
+            n = c[2] // 4 if c[1] == "table" else c[2]  # (a table level is four tree levels; nested tables get slow beyond ~60)
+            return DEEP_SHAPES[c[0]] % (o * n + "x" + cl * n)
         if fam == "brwrap":
             return BR_AROUND[c[0]] % (BR_OUTER[c[1]] % (BR_INLINE[c[2]] % c[3]))
         if fam == "grammar":
@@ -196,14 +222,19 @@ class CleanExplore(InputProp):
             tc = self.treecleaner.TreeCleaner(tree, save_reports=True)
             h = tree_hash(tree)
             steps = 1
+            deep_tag = "|tree-depth>=150" if tree_depth(tree) >= 150 else ""
             for name in self.methods:
                 steps += 1
+                raised = False
                 try:
                     getattr(tc, name)(tree)
                 except Exception as e:
-                    v6.append({"sig": "pass:%s:%s" % (name, exc_signature(e)),
-                               "msg": "cleaning pass %s raised %s: %s on %r" % (name, type(e).__name__, str(e)[:150], text[:200])})
-                    break
+                    # (the cleaner's own clean() logs the error and goes on with the next pass: so does the exploration, and the
+                    # tree the failed pass leaves behind is still subject to C05)
+                    raised = True
+                    sg = "pass:%s:%s" % (name, exc_signature(e)) + deep_tag
+                    if not any(v["sig"] == sg for v in v6):
+                        v6.append({"sig": sg, "msg": "cleaning pass %s raised %s: %s on %r" % (name, type(e).__name__, str(e)[:150], text[:200])})
                 h2 = tree_hash(tree)
                 if h2 != h:
                     counters["changed:" + name] = 1
@@ -213,7 +244,7 @@ class CleanExplore(InputProp):
                     for sig, msg in probs[:3]:
                         v5.append({"sig": "after-%s:%s" % (name, sig), "msg": "%s after pass %s on %r" % (msg, name, text[:200])})
                     break
-                if name in FIXPOINT_PASSES:
+                if name in FIXPOINT_PASSES and not raised:
                     try:
                         getattr(tc, name)(tree)
                     except Exception as e:
